@@ -132,7 +132,7 @@ def run(tier):
         n = 0
         for d in tab: n += check_inst(mod, run, d, wch)
         per[wch] = {"instantiations": len(tab), "path_x_residue_cases": n}
-        run.floor("instantiations (%s)" % wch, len(tab), 11 if wch == "quick" else 100)
+        run.floor("instantiations (%s)" % wch, len(tab), 15 if wch == "quick" else 100)
         run.floor("cases (%s)" % wch, n, 150)
     # the library's own instantiation (src/varintDimension.c: 12 bits, uint8_t slots, uint16_t promotion)
     from ..common import lib_module
